@@ -83,6 +83,7 @@ def fit_minuit_v1(fcn, bounds_dict={}, hesse=True, minos=False, **kwargs):
         m.minos()  # (var="")
         print("MINOS Time", time.time() - now)
     ndf = len(m.list_of_vary_param())
+    fcn.vm.set_all(dict(m.values))
     ret = FitResult(
         dict(m.values), fcn, m.fval, ndf=ndf, success=m.migrad_ok()
     )
@@ -140,6 +141,7 @@ def fit_minuit_v2(fcn, bounds_dict={}, hesse=True, minos=False, **kwargs):
         m.minos()  # (var="")
         print("MINOS Time", time.time() - now)
     ndf = len(var_names)
+    fcn.vm.set_all(dict(zip(var_names, m.values)))
     ret = FitResult(
         dict(zip(var_names, m.values)), fcn, m.fval, ndf=ndf, success=m.valid
     )
